@@ -7,7 +7,7 @@
    writer can be driven (receive when the queue is not empty, else time-out / default) to a state where some client
    step is enabled: to its select when a call is parked at its send, to its exit when a Stop call is parked at Wait. *)
 From Coq Require Import List Bool Arith ZArith Lia.
-From Verif.C08_Batch Require Import Model Base Safety Life Complete Value Progress.
+From Verif.C08_Batch Require Import Model Base Safety Life Complete Value Progress Witness.
 Import ListNotations.
 
 (* ---------- more invariants ---------- *)
@@ -308,7 +308,6 @@ Proof.
 Qed.
 
 (* contrast, pinned code (D08b, rendezvous queue): the Enqueue call parked at its send stays there under every continuation *)
-From Verif.C08_Batch Require Import Witness.
 Lemma d08b_block_forever : forall sch, pc_of (run (cfg_d08b 0) sch (s_d08b 0)) 1 = Some (PE ESend).
 Proof.
   intros sch. rewrite stuck_run. vm_compute; reflexivity. vm_compute; reflexivity.
